@@ -29,6 +29,9 @@ CHECKS = {
  "C17": dict(level="exploration", technique="property-based testing (proptest): generated reference graphs (trees, sharing, cycles, self-loops, dangling), own recursive expansion model compared with Graph::squash modulo sibling order, token-multiplicity check on the exported text, watchdog for termination",
    text="For generated libraries and depths 0-6 (up to 255 on chains and self-loops) the squashed tree must equal the harness's own depth-bounded expansion of the notes' trees modulo sibling order, and the rebuilt, exported text must contain every word token with the predicted multiplicity.",
    note="The notes' own section structure is taken from Graph::collect (C07 judges it); the expansion recursion is the harness's own.", ref="7/C17"),
+ "C18": dict(level="exploration", technique="property-based testing (proptest): generated heading trees and include graphs, model of all simple heading chains from an independent scan compared as sets with Graph::paths, sort-key oracle for global_search with the documented comparator",
+   text="The listed paths must equal, as a set, the model's simple chains from top-level headings of unincluded notes through sub-headings and block-reference includes (soundness and completeness); search results must be at most 100 and their sort keys exactly the first keys of all paths under the documented order, with ranks equal to the model's backlink counts.",
+   note="Heading levels are generated well-nested; fuzzy scores are recomputed with the same fuzzy-matcher crate (trusted).", ref="7/C18"),
  "C20": dict(level="exploration", technique="property-based testing (proptest): generated histories of imports, updates, insertions and patch-graph constructions with an external forest-invariant walker after every step",
    text="After every step of a generated history an external walker over nodes()/graph_node()/keys()/NodePointer checks: roots are documents, DFS visits every live node exactly once, prev pointers match, navigation answers agree with ownership, walk order equals the scanned block order, ids only grow, other notes' nodes are untouched.",
    note="Invariant over the history; the order check skips blocks without a text line.", ref="7/C20"),
